@@ -22,6 +22,7 @@ use sciparse::{
     core::view::{View, ViewConversionError},
     dataplane_path::types::PathType,
     packet::view::ScionPacketView,
+    payload::ProtocolNumber,
 };
 use thiserror::Error;
 
@@ -69,6 +70,24 @@ pub enum PacketPolicyError<'a> {
     InvalidPathType(&'a ScionPacketView, PathType),
     #[error("packet does not have a valid source address")]
     InvalidSourceAddress(&'a ScionPacketView),
+}
+
+impl PacketPolicyError<'_> {
+    /// Returns `true` if the offending datagram is itself an SCMP error message (SCMP message
+    /// types below 128, including types without a dedicated model).
+    ///
+    /// An SCMP error message must never be answered with an SCMP error message. A malformed
+    /// datagram cannot be parsed far enough to tell, so this returns `false` for it.
+    pub(crate) fn offending_is_scmp_error(&self) -> bool {
+        match self {
+            PacketPolicyError::MalformedPacket(..) => false,
+            PacketPolicyError::InvalidPathType(view, _)
+            | PacketPolicyError::InvalidSourceAddress(view) => {
+                view.header().next_header() == ProtocolNumber::Scmp
+                    && view.payload().first().is_some_and(|scmp_type| *scmp_type < 128)
+            }
+        }
+    }
 }
 
 impl std::fmt::Debug for PacketPolicyError<'_> {
